@@ -326,4 +326,193 @@ PropCmpResults(c, op, a, b, rets) ==
   /\ Len(rets) > 0
   /\ \A k \in DOMAIN rets : rets[k] = CmpDecl(c, op, a, b)
 
+
+\* ======================================================================
+\* Clone / Copy (C07)
+\* ======================================================================
+\* A result value is observed as its fingerprint <<variant, <<field
+\* fingerprints>>>>; a field fingerprint is <<side, field, value, generation>>:
+\* which operand and field the probe originally came from, its abstract value,
+\* and how it was produced.
+GOrig == 0        \* never touched: a bitwise copy of the original probe
+GClone == 1       \* produced by the field type's Clone::clone
+GCloneFrom == 2   \* overwritten by the field type's Clone::clone_from
+GMethod == 3      \* produced by the custom clone method
+
+CloneVia(c, v, i) == c.variants[v].fields[i].clone
+HasCloneMethod(c) ==
+  \E v \in 1..NVariants(c) : \E i \in FieldIdx(c, v) : CloneVia(c, v, i) = Method
+\* "When Copy is educed as well ... unless a custom clone method is in use
+\* clone returns a bitwise copy."
+Bitwise(c) == HasTrait(c, "Copy") /\ ~HasCloneMethod(c)
+
+\* generations admissible for field i of the result of `op`
+CloneGens(c, v, i, op) ==
+  IF Bitwise(c) THEN {GOrig}
+  ELSE IF CloneVia(c, v, i) = Method THEN {GMethod}
+  ELSE IF op = "clone" THEN {GClone}
+  ELSE {GClone, GCloneFrom}       \* clone_from may reuse the storage or replace it
+
+\* --- Prop for x.clone(): same variant; every field produced from the
+\* corresponding field of x, exactly once, by the method or the own Clone; a
+\* bitwise plan makes no call at all.
+CloneCallFor(c, a, i) == <<"clone", CloneVia(c, a.v, i), "a", i, a.f[i], 0>>
+PropClone(c, a, calls, res) ==
+  /\ res[1] = a.v
+  /\ Len(res[2]) = NFields(c, a.v)
+  /\ \A i \in FieldIdx(c, a.v) :
+        /\ res[2][i][1] = "a" /\ res[2][i][2] = i /\ res[2][i][3] = a.f[i]
+        /\ res[2][i][4] \in CloneGens(c, a.v, i, "clone")
+  /\ IF Bitwise(c) THEN calls = <<>>
+     ELSE /\ Len(calls) = NFields(c, a.v)
+          /\ \A i \in FieldIdx(c, a.v) : \E j \in DOMAIN calls : calls[j] = CloneCallFor(c, a, i)
+
+\* --- Prop for a.clone_from(&b): judged on the final state only -- a is then
+\* indistinguishable from b.clone() (any prior a, same or different variant).
+PropCloneFrom(c, a, b, res) ==
+  /\ res[1] = b.v
+  /\ Len(res[2]) = NFields(c, b.v)
+  /\ \A i \in FieldIdx(c, b.v) :
+        /\ res[2][i][1] = "b" /\ res[2][i][2] = i /\ res[2][i][3] = b.f[i]
+        /\ res[2][i][4] \in CloneGens(c, b.v, i, "clone_from")
+
+\* --- Impl machines (one step per field).  run = [op, a, b, pc, calls, res, done];
+\* res is the list of field fingerprints built so far.
+ImplCloneField(c, src, side, i) ==
+  <<side, i, src.f[i], IF CloneVia(c, src.v, i) = Method THEN GMethod ELSE GClone>>
+
+ImplCloneStep(c, r) ==
+  IF Bitwise(c)
+  THEN [r EXCEPT !.done = TRUE, !.resv = r.a.v,
+                 !.res = [i \in FieldIdx(c, r.a.v) |-> <<"a", i, r.a.f[i], GOrig>>]]
+  ELSE IF r.pc > NFields(c, r.a.v) THEN [r EXCEPT !.done = TRUE, !.resv = r.a.v]
+  ELSE [r EXCEPT !.pc = @ + 1,
+                 !.res = Append(@, ImplCloneField(c, r.a, "a", r.pc)),
+                 !.calls = Append(@, CloneCallFor(c, r.a, r.pc))]
+
+\* clone_from: same variant => field-wise clone_from / method assignment;
+\* otherwise `*self = source.clone()`.  With the bitwise plan the trait's
+\* default clone_from (`*self = source.clone()`) is used.
+ImplCloneFromStep(c, r) ==
+  IF Bitwise(c)
+  THEN [r EXCEPT !.done = TRUE, !.resv = r.b.v,
+                 !.res = [i \in FieldIdx(c, r.b.v) |-> <<"b", i, r.b.f[i], GOrig>>]]
+  ELSE IF r.pc > NFields(c, r.b.v) THEN [r EXCEPT !.done = TRUE, !.resv = r.b.v]
+  ELSE LET i == r.pc
+           g == IF CloneVia(c, r.b.v, i) = Method THEN GMethod
+                ELSE IF r.a.v = r.b.v THEN GCloneFrom ELSE GClone
+       IN [r EXCEPT !.pc = @ + 1, !.res = Append(@, <<"b", i, r.b.f[i], g>>)]
+
+
+\* ======================================================================
+\* Debug (C06)
+\* ======================================================================
+\* The effective shape of a value: an effective name (or none), a style, and
+\* the shown fields with their keys; then the text core::fmt's builders
+\* produce for it.  Newlines are written "|" here and in the traces.
+\* Probe semantics: the own Debug of a probe with value x prints "p<x>", the
+\* custom method prints "m<x>" (single-line, so the pretty printer does not
+\* re-indent them).
+NoName == "<none>"
+
+\* names of the rendering (facts about the Rust source, supplied with each
+\* record): nm.type = the type's identifier, nm.fields = the identifiers of the
+\* fields of the value's variant ("" for tuple fields)
+TypeCustom == "Renamed"
+VariantIdent(v) == "V" \o ToString(v)
+VariantCustom(v) == "RenamedV" \o ToString(v)
+KeyCustom(i) == "k" \o ToString(i)
+
+DbgShown(c, v) == { i \in FieldIdx(c, v) : c.variants[v].fields[i].dbg # Ignore }
+DbgVia(c, v, i) == c.variants[v].fields[i].dbg
+
+EffName(c, v, nm) ==
+  IF c.kind = "struct"
+  THEN CASE c.opts.dname = "off" -> NoName
+         [] c.opts.dname = "custom" -> TypeCustom
+         [] OTHER -> nm.type
+  ELSE LET en == CASE c.opts.dname = "on" -> nm.type
+                   [] c.opts.dname = "custom" -> TypeCustom
+                   [] OTHER -> NoName                      \* enums hide their own name by default
+           vn == CASE c.variants[v].dname = "off" -> NoName
+                   [] c.variants[v].dname = "custom" -> VariantCustom(v)
+                   [] OTHER -> VariantIdent(v)
+       IN IF en # NoName THEN (IF vn # NoName THEN en \o "::" \o vn ELSE en) ELSE vn
+
+\* struct style (keys) or tuple style (positional)
+EffNamed(c, v) ==
+  LET d == IF c.kind = "struct" THEN c.opts.dnf ELSE c.variants[v].dnf IN
+    CASE d = "true" -> TRUE
+      [] d = "false" -> FALSE
+      [] OTHER -> c.variants[v].style # "tuple"
+
+EffKey(c, v, i, nm) ==
+  IF c.variants[v].fields[i].key # "" THEN KeyCustom(i)
+  ELSE IF c.variants[v].style = "tuple" THEN "_" \o ToString(i - 1)
+  ELSE nm.fields[i]
+
+\* what the macro must refuse (C13) rather than print: nothing to print at all
+DebugPrintable(c) ==
+  \A v \in 1..NVariants(c) :
+     /\ (DbgShown(c, v) = {}) => EffName(c, v, [type |-> "T", fields |-> <<>>]) # NoName
+     /\ \A i \in FieldIdx(c, v) : c.variants[v].fields[i].key # "" => (EffNamed(c, v) /\ i \in DbgShown(c, v))
+
+ValText(via, x) == (IF via = Method THEN "m" ELSE "p") \o ToString(x)
+
+RECURSIVE JoinWith(_, _)
+JoinWith(items, sep) ==
+  IF items = <<>> THEN ""
+  ELSE IF Len(items) = 1 THEN items[1]
+  ELSE items[1] \o sep \o JoinWith(Tail(items), sep)
+
+RECURSIVE Lines(_)
+Lines(items) == IF items = <<>> THEN "" ELSE "    " \o Head(items) \o ",|" \o Lines(Tail(items))
+
+\* the text, compact (alt = FALSE) or pretty (alt = TRUE)
+RenderDebug(c, a, nm, alt) ==
+  LET v == a.v
+      name == EffName(c, v, nm)
+      shown == SortedSeq(DbgShown(c, v))
+      vals == [p \in DOMAIN shown |-> ValText(DbgVia(c, v, shown[p]), a.f[shown[p]])]
+      kvs == [p \in DOMAIN shown |-> EffKey(c, v, shown[p], nm) \o ": " \o vals[p]]
+      shownName == IF name = NoName THEN "" ELSE name
+  IN IF c.variants[v].style = "unit" /\ c.kind = "enum" THEN name
+     ELSE IF EffNamed(c, v)
+     THEN IF name # NoName
+          THEN \* debug_struct
+               IF shown = <<>> THEN name
+               ELSE IF alt THEN name \o " {|" \o Lines(kvs) \o "}"
+                           ELSE name \o " { " \o JoinWith(kvs, ", ") \o " }"
+          ELSE \* debug_map with raw keys
+               IF alt THEN (IF shown = <<>> THEN "{}" ELSE "{|" \o Lines(kvs) \o "}")
+                      ELSE "{" \o JoinWith(kvs, ", ") \o "}"
+     ELSE \* debug_tuple
+          IF shown = <<>> THEN shownName
+          ELSE IF alt THEN shownName \o "(|" \o Lines(vals) \o ")"
+          ELSE shownName \o "(" \o JoinWith(vals, ", ")
+                         \o (IF shownName = "" /\ Len(shown) = 1 THEN ",)" ELSE ")")
+
+\* field formatting calls: exactly the shown fields, once each, in declaration
+\* order, through the method iff the field has one
+DbgCallsOK(c, a, calls) ==
+  LET shown == SortedSeq(DbgShown(c, a.v)) IN
+    /\ Len(calls) = Len(shown)
+    /\ \A p \in DOMAIN shown :
+          calls[p] = <<"fmt", DbgVia(c, a.v, shown[p]), "a", shown[p], a.f[shown[p]], 0>>
+
+HasDebugParams(c) ==
+  \/ c.opts.dname # "default" \/ c.opts.dnf # "default"
+  \/ \E v \in 1..NVariants(c) :
+        \/ c.variants[v].dname # "default" \/ c.variants[v].dnf # "default"
+        \/ \E i \in FieldIdx(c, v) : c.variants[v].fields[i].dbg # Own \/ c.variants[v].fields[i].key # ""
+
+\* e = one observed formatting of value e.a: compact text, pretty text, the
+\* calls of each, the names, and what #[derive(Debug)] prints for a twin type
+PropDebug(c, e) ==
+  /\ e.out = RenderDebug(c, e.a, e.nm, FALSE)
+  /\ e.pretty = RenderDebug(c, e.a, e.nm, TRUE)
+  /\ DbgCallsOK(c, e.a, e.calls)
+  /\ DbgCallsOK(c, e.a, e.pcalls)
+  /\ ~HasDebugParams(c) => (e.out = e.dout /\ e.pretty = e.dpretty)
+
 =============================================================================
